@@ -184,7 +184,8 @@ SPEC = dict(
         # leaving run(): behind `if executor:` — raise ValueError / raise the stored exception / return (result, batch_index)
         frag("outcome", dict(path=[], after="If=executor", tail=True, outputs=[]),
              params=[("result", "got_result", Opt(Res)), ("exception", "got_exception", Opt(Exc)), ("batch_index", "batch_index", Z)],
-             returns=Tup(Res, Z), state=False),
+             returns=Tup(Res, Z), state=False,
+             raise_locals=["exception"]),  # `raise exception`: that run() re-raises there is linked, WHICH stored object is not
         # the ORDER AND NESTING of the synchronisation operations of run() (idiom sync-skeleton), against the pc table
         dict(py=RUN, gen="run_skeleton", kind="sync_skeleton", sync=SYNC_RUNNER),
         # ---------------------------------------------------------------- the batching wrappers (slice arithmetic)
